@@ -3,7 +3,7 @@ from vlib import oracles, reharness
 from vlib.harness import Harness, register
 from harnesses.c01_documents import OUT, STUBS, SYM, _fns
 
-PLANS_Q = ["scan2", "bare", "cleanup", "nested_runs", "staged_monitor"]
+PLANS_Q = ["scan2", "bare", "cleanup", "nested_runs", "staged_monitor", "failpause", "defer_failpause"]
 PLANS_T = PLANS_Q + ["count2", "flymon", "grid2x2", "fly1", "rel_scan2"]
 register(Harness("c02_sweep", "C02", lambda P: reharness.make_sweep(P, oracles.c02_exit_status, plans=PLANS_Q if P["tier"] == "quick" else PLANS_T),
                  {"quick": dict(shards=16, budget_s=300, per_path_s=30), "thorough": dict(shards=48, budget_s=3000, per_path_s=30)},
@@ -15,4 +15,10 @@ register(Harness("c02_faults", "C02", lambda P: reharness.make_sweep(P, oracles.
                  {"quick": dict(shards=16, budget_s=300, per_path_s=30), "thorough": dict(shards=64, budget_s=3000, per_path_s=30)},
                  goals=["device-failure-surfaced", "paused"], functions=_fns, mode="schedule",
                  symbolic=SYM + "; plus one device fault: protocol call j raises, or the status returned by call j fails", out_of_bound=OUT, stubs=STUBS,
+                 require_exhaustive=True))
+register(Harness("c02_settle", "C02", lambda P: reharness.make_sweep(P, oracles.c02_exit_status, plans=["late_wait", "scan2"] if P["tier"] == "quick" else PLANS_T + ["late_wait"],
+                                                                       kinds=["pause"], decisions=["resume"], faults=True, run_kw=dict(settle_paused=True)),
+                 {"quick": dict(shards=16, budget_s=300, per_path_s=30), "thorough": dict(shards=64, budget_s=3000, per_path_s=30)},
+                 goals=["device-failure-surfaced", "paused"], functions=_fns, mode="schedule",
+                 symbolic=SYM + "; one device fault; virtual time advances while the engine is paused, so a pending status can fail during the pause", out_of_bound=OUT, stubs=STUBS,
                  require_exhaustive=True))
